@@ -285,7 +285,8 @@ class MTSPContext(EnvContext):
 
     def _distance_from_depot(self, td):
         # Euclidean distance from the depot (loc[..., 0, :])
-        cur_loc = gather_by_index(td["locs"], td["current_node"])
+        # gather along the node dimension: td is [batch] or, in multi-start decoding, [batch, num_starts]
+        cur_loc = gather_by_index(td["locs"], td["current_node"], dim=-2)
         return torch.norm(cur_loc - td["locs"][..., 0, :], dim=-1)
 
 
